@@ -499,7 +499,7 @@ class StepHang(BaseException):
     """The real code did not come back from one scheduler step (BaseException: not swallowed by its own guards)."""
 
 
-STEP_CPU_LIMIT = 10.0          # seconds of CPU for one scheduler step (a step normally takes milliseconds)
+STEP_CPU_LIMIT = 3.0           # seconds of CPU for one scheduler step (a step normally takes milliseconds)
 HUNG_TOTAL = [0]               # number of watchdog interruptions in this process (read by vlib.Verdict.finish)
 
 
@@ -516,7 +516,9 @@ class _Enter:
         c = self.c
         if not c._stack and threading.current_thread() is threading.main_thread():
             signal.signal(signal.SIGVTALRM, _on_vtalrm)
-            signal.setitimer(signal.ITIMER_VIRTUAL, STEP_CPU_LIMIT)
+            # (repeating: an interruption that lands in a context where exceptions are ignored - weakref callbacks,
+            # __del__ - must be followed by another one)
+            signal.setitimer(signal.ITIMER_VIRTUAL, STEP_CPU_LIMIT, 0.2)
         c._stack.append((c.clock.current, events.callbacks))
         c.clock.current = self.name
         node = c.nodes[self.name]
@@ -524,8 +526,17 @@ class _Enter:
         c.current = self.name
 
     def __exit__(self, etype, exc, tb):
-        from supervisor import events
         c = self.c
+        outer = len(c._stack) == 1 and threading.current_thread() is threading.main_thread()
+        if outer:
+            # disarm first (the timer repeats); an interruption landing right here is absorbed and retried
+            for _ in range(3):
+                try:
+                    signal.setitimer(signal.ITIMER_VIRTUAL, 0)
+                    break
+                except StepHang:
+                    continue
+        from supervisor import events
         node = c.nodes[self.name]
         node.callbacks = events.callbacks
         prev, cbs = c._stack.pop()
@@ -541,8 +552,12 @@ class _Enter:
                 HUNG_TOTAL[0] += 1
                 try:
                     for p in c.proxies(self.name).values():
-                        with p.queue.mutex:
-                            p.queue.queue.clear()
+                        # (the interrupted code may hold the queue mutex for ever: never wait for it)
+                        if p.queue.mutex.acquire(timeout=0.05):
+                            try:
+                                p.queue.queue.clear()
+                            finally:
+                                p.queue.mutex.release()
                 except Exception:
                     pass
                 node.alive = False
